@@ -478,7 +478,39 @@ int main(int argc, char **argv)
                 uint8_t msg[16 + 64], d[32], e[32];
                 size_t base, t, cut;
                 int mid = !strcmp(sp.tok[0], "hashmid");
+                if (!strcmp(sp.tok[0], "hmacin")) {
+                    /* HMAC whose inner digest has a rare word pattern (p1 == 2, C12): one-shot, streamed, and a state
+                     * that is re-keyed right after producing it */
+                    uint8_t hk[64], hm[64], e2[32], d2[32], k2[20];
+                    size_t kl = special_unhex(sp.tok[1], hk, 64), ml = special_unhex(sp.tok[2], hm, 64), q;
+                    tinyjambu_hmac_state_t hs;
+                    if (a.p1 != 2) continue;
+                    if (!mine(&a, idx)) { ++idx; continue; }
+                    set_case("{\"h\":\"hash\",\"mode\":\"special-hmac\",\"i\":%ld,\"keylen\":%zu,\"mlen\":%zu,\"pattern\":\"%s\"}", idx, kl, ml, sp.tok[sp.ntok - 1]);
+                    ++idx; ++n_eval; ++n_special; ++n_hmac; cls_add(mix64(0x5BF0, (uint64_t)idx)); if (idx % 31 == 0 || a.only >= 0) emit_sample();
+                    m_hmac(e2, hk, kl, hm, ml); ++n_model;
+                    tinyjambu_hmac(d2, hk, kl, hm, ml);
+                    if (memcmp(d2, e2, 32)) digest_mismatch("hmac-spec-mismatch:special-value", "one-shot HMAC of a corpus (key, message) pair differs from RFC 2104 over the model hash", e2, d2);
+                    memset(&hs, 0x4E, sizeof hs);
+                    tinyjambu_hmac_init(&hs, hk, kl);
+                    for (q = 0; q < ml; ++q) tinyjambu_hmac_update(&hs, hm + q, 1);
+                    tinyjambu_hmac_finalize(&hs, hk, kl, d2); ++n_hmac_stream;
+                    if (memcmp(d2, e2, 32)) digest_mismatch("hmac-stream-mismatch:special-value", "byte-wise HMAC of a corpus pair differs from the model", e2, d2);
+                    /* same state object, next message under another key */
+                    for (q = 0; q < sizeof k2; ++q) k2[q] = (uint8_t)(0xC0 + q);
+                    tinyjambu_hmac_reinit(&hs, k2, sizeof k2); tinyjambu_hmac_update(&hs, hm, ml); tinyjambu_hmac_finalize(&hs, k2, sizeof k2, d2); ++n_reinit;
+                    m_hmac(e2, k2, sizeof k2, hm, ml); ++n_model;
+                    if (memcmp(d2, e2, 32)) digest_mismatch("hmac-rekey-mismatch:special-value", "HMAC via reinit after a corpus pair differs from the model", e2, d2);
+                    /* and a key longer than the block whose hash is the corpus message's inner digest is out of reach; the
+                     * long-key path is exercised with the corpus message as key material */
+                    { uint8_t lk[80]; for (q = 0; q < sizeof lk; ++q) lk[q] = hm[q % (ml ? ml : 1)] ^ (uint8_t)q;
+                      tinyjambu_hmac(d2, lk, sizeof lk, hk, kl); m_hmac(e2, lk, sizeof lk, hk, kl); ++n_model;
+                      if (memcmp(d2, e2, 32)) digest_mismatch("hmac-spec-mismatch:special-value", "HMAC with an 80-byte key derived from a corpus message differs from the model", e2, d2); }
+                    tinyjambu_hmac_free(&hs);
+                    continue;
+                }
                 if (!mid && strcmp(sp.tok[0], "hashfin")) continue;
+                if (a.p1 == 2) continue;
                 base = special_unhex(sp.tok[1], msg, 16);
                 for (t = 0; t < (mid ? 7u : 1u); ++t, ++idx) {
                     size_t len = base + TAILS[t], k2;
